@@ -28,6 +28,9 @@ def chunk_einsum(*operands, **kwargs):
     dtype = kwargs.pop("kernel_dtype")
     einsum = einsum_lookup.dispatch(type(operands[0]))
     chunk = einsum(subscripts, *operands, dtype=dtype, **kwargs)
+    if dtype is not None and getattr(chunk, "dtype", dtype) != dtype:
+        # np.einsum returns an uncast view for pure relabelings ('ij->ji')
+        chunk = chunk.astype(dtype)
 
     # Avoid concatenate=True in blockwise by adding 1's
     # for the contracted dimensions
